@@ -9,7 +9,8 @@ from ..values import ScriptedInterrupt
 
 CATOF = ['A', 'AB', 'A', 'A_B', 'AB']      # recording number -> category; recording 3 is flagged incomplete
 INCOMPLETE = {3}
-INVS = ['OwnTuning', 'AtMostOnce', 'EachOnce', 'FailureIsLocal', 'LookupStaysInCategory']
+INVS = ['OwnTuning', 'AtMostOnce', 'EachOnce', 'FailureIsLocal', 'LookupStaysInCategory', 'VerdictsExact']
+VERSION = {}
 
 
 class World(object):
@@ -21,6 +22,7 @@ class World(object):
         from playback.studio.equalizer import ComparatorResult, EqualityStatus
         from ..recprops import CASSETTES
         import pbverif.opclasses as oc
+        VERSION.clear()      # the recordings are made with the original code
         fac, refetch = CASSETTES[cassette]
         self.inner = fac()
         self.tr = TapeRecorder(self.inner)
@@ -40,7 +42,7 @@ class World(object):
                     self.out(v)
                     if type(self).interrupt:
                         raise ScriptedInterrupt('cut short')
-                    return ('result-of', type(self).category)
+                    return ('result-of', type(self).category, VERSION.get(type(self).category, 0))
 
                 @tr.intercept_input('in')
                 def inp(self):
@@ -113,6 +115,9 @@ def execute(world, init, consumes):
     bad = []
     cats = sorted(set(CATOF))
     world.tuner.failing = set(init['failing'])
+    VERSION.clear()
+    for c in init.get('edited', ()):      # the code of these categories changed since the recordings were made
+        VERSION[c] = 1
     del world.log[:]
     if init['mode'] == 'explicit':
         rec_ids = [world.ids[r] for r in init['order']]
@@ -150,8 +155,9 @@ def execute(world, init, consumes):
         exp_id = world.ids[step['rec']]
         if comp.recording_id != exp_id:
             bad.append('stream %s produced recording %s, expected %s' % (c, comp.recording_id, exp_id))
-        if step['rec'] not in INCOMPLETE and comp.comparator_status.equality_status.name != 'Equal':
-            bad.append('recording %s compared %s' % (comp.recording_id, comp.comparator_status))
+        if comp.comparator_status.equality_status.name != step.get('verdict', 'Equal'):
+            bad.append('recording %d (%s) compared %s, expected %s' % (step['rec'], CATOF[step['rec'] - 1], comp.comparator_status,
+                                                                        step.get('verdict')))
         used = [e for e in world.log[n0:] if e[0] in ('play', 'extract', 'compare')]
         wrong = [e for e in used if e[1] != CATOF[step['rec'] - 1]]
         if wrong or not [e for e in used if e[0] == 'play']:
@@ -181,7 +187,7 @@ def _work(task):
             consumes = [dict(p) for p in last['played']]
             bad = execute(w, init, consumes)
             out.append(({'mode': init['mode'], 'order': list(init['order']), 'failing': sorted(init['failing']),
-                         'limit': init['limit'], 'consume': [p['stream'] for p in consumes],
+                         'edited': sorted(init['edited']), 'limit': init['limit'], 'consume': [p['stream'] for p in consumes],
                          'played': consumes}, bad))
     finally:
         w.close()
@@ -203,7 +209,7 @@ def run(rep, tier, seed):
     cap = 8000 if quick else 60000
     with tlc.Scratch() as s:
         catof = Raw(mc.tla(tuple(CATOF[:n])))
-        base = dict(Cats=set(CATOF[:n]), CatOf=catof, Incomplete=INCOMPLETE, Limits={0, 1}, SharedTuning=False)
+        base = dict(Cats=set(CATOF[:n]), CatOf=catof, Incomplete=INCOMPLETE, Limits={0, 1}, MaxEdited=1, SharedTuning=False)
         mc.write_mc(s, 'Studio', 'MC_C19_shared', dict(base, SharedTuning=True), invariants=INVS)
         r = tlc.run_tlc(s, 'MC_C19_shared', 'MC_C19_shared.cfg')
         rep.add_tlc('design variant: tuning looked up when a stream is advanced', r)
@@ -256,7 +262,7 @@ def run(rep, tier, seed):
                         rep.sample(dict(sc, cassette=cas))
                     if bad:
                         rep.violation({'summary': '[%s] %s | mode=%s order=%s failing=%s limit=%s consumption=%s'
-                                                  % (cas, bad[0][:250], sc['mode'], sc['order'], sc['failing'], sc['limit'], sc['consume']),
+                                                  % (cas, bad[0][:250], sc['mode'], sc['order'], sc['failing'] + ['edited:'] + sc['edited'], sc['limit'], sc['consume']),
                                        'signature': None, 'all': bad[:5]}, replay={'kind': 'studio', 'cassette': cas, 'n': n, 'scenario': sc})
 
 
